@@ -354,6 +354,7 @@ void stats_to_json(const Stats &st, Json &j) {
     Json s = Json::obj();
     for (int i = 0; i < SK_COUNT; i++) s.set(SK[i], (unsigned long long)st.site_preempt[i]);
     j.set("preemptions_by_site", s);
+    j.set("max_budget_permille", (unsigned long long)st.max_budget_permille);
 }
 
 int cmd_replay(const Args &a) {
@@ -498,6 +499,7 @@ int cmd_run(const Args &a) {
     uint64_t runs = 0, digest = 0;
     uint64_t ctr[CT_COUNT]; memset(ctr, 0, sizeof ctr);
     std::map<std::string, uint64_t> opk, sitep;
+    uint64_t max_pm = 0;
     std::set<uint32_t> states;
     std::vector<uint64_t> shapes, scheds;
     Json samples = Json::arr();
@@ -509,6 +511,7 @@ int cmd_run(const Args &a) {
             for (int i = 0; i < CT_COUNT; i++) ctr[i] += j.at("counters").at(ctr_name(i)).as_u();
             for (auto &kv : j.at("ops").o) opk[kv.first] += kv.second.as_u();
             for (auto &kv : j.at("preemptions_by_site").o) sitep[kv.first] += kv.second.as_u();
+            max_pm = std::max<uint64_t>(max_pm, j.at("max_budget_permille").as_u());
             for (auto &v : j.at("states").a) states.insert((uint32_t)v.as_u());
             for (auto &v : j.at("samples").a) if (samples.a.size() < 4) samples.push(v);
         }
@@ -566,6 +569,7 @@ int cmd_run(const Args &a) {
     res.set("counters", c);
     Json o = Json::obj(); for (auto &kv : opk) o.set(kv.first, (unsigned long long)kv.second); res.set("ops", o);
     Json sp = Json::obj(); for (auto &kv : sitep) sp.set(kv.first, (unsigned long long)kv.second); res.set("preemptions_by_site", sp);
+    res.set("max_hang_budget_use_permille", (unsigned long long)max_pm);
     res.set("distinct_states", (unsigned long long)states.size());
     res.set("distinct_schedules", (unsigned long long)scheds.size());
     res.set("distinct_nontrivial_plans", (unsigned long long)shapes.size());
